@@ -3,7 +3,8 @@ import AdeptProofs.Lemmas.Special
 # C17 — special matrices behave as the dense matrices they stand for
 
 Property theorems only; helper lemmas and the specification vocabulary (`WF`, `InPattern`, `isSymm`,
-`Canonical`, `SM.Adm`, `RExpr.val`) live in `AdeptProofs/Lemmas/Special.lean`.
+`Canonical`, `SM.Adm`, `RExpr.val`, `SM.Stores`, `AExpr.Stores`, `AExpr.AllAdm`, `AExpr.DimIs`) live in
+`AdeptProofs/Lemmas/Special.lean`.
 
 All statements are about
 * `AdeptModel/Generated/Engines.lean` — the engine policy structs of `include/adept/SpecialMatrix.h`, regenerated
@@ -189,12 +190,50 @@ theorem C17_diag_matrix_view (n s b : Int) (hn : 1 ≤ n) (hs : 1 ≤ s) (d : Ra
     engine_unfold
     congr 1; ring
 
+/-- alias_conservative: `is_aliased` (the `data_range` overlap test of `SpecialMatrix::is_aliased_`, combined over
+    the expression tree) errs only on the safe side.  If it answers false for the target's `data_range`, no stored
+    element of the target is a stored element of any special-matrix leaf of the right-hand side — for every
+    engine, size, offset and base address of target and leaves (blocks of one matrix, transposes, other matrices
+    in the same Storage object).  The boundary matters: `data_end` points AT the last element, so the test must be
+    `ptr_end >= mem1` (see the example below, where the two ranges share exactly one element). -/
+theorem C17_alias_conservative (m : SM) (ha : m.Adm) (rhs : AExpr) (hr : rhs.AllAdm)
+    (h : rhs.isAliased m.dataBegin m.dataEnd = false) (k : Int) (hk : m.Stores k) : ¬ rhs.Stores k :=
+  fun hs => rhs.not_aliased_range _ _ h k (rhs.stores_in_range hr k hs) (m.stores_in_range ha k hk)
+
+/-- self_assign_semantics: `M = rhs` (`SpecialMatrix::operator=(const Expression&)`: alias test, then either a
+    temporary copy or the in-place row traversal in which every `next_value` reads the storage as the previous
+    stores left it) where the leaves of `rhs` are special matrices in M's OWN Storage object — anywhere in it,
+    overlapping M or not.  The result is "evaluate the whole right-hand side, then store": every position
+    `get_row_range` enumerates holds the value the right-hand side had there BEFORE the statement (`rhs.bind d`
+    reads the old storage `d`), and no other raw element changes.  All engines, sizes, offsets. -/
+theorem C17_self_assign_semantics (m : SM) (ha : m.Adm) (rhs : AExpr) (hr : rhs.AllAdm) (hn : rhs.DimIs m.dim)
+    (d : Raw) :
+    (∀ i j : Int, 0 ≤ i → i < m.dim → 0 ≤ j → j < m.dim → Canonical m.e i j →
+        m.assignExpr rhs d (m.base + m.e.index i j m.offset) = (rhs.bind d).val i j) ∧
+    (∀ k : Int, (∀ i j : Int, 0 ≤ i → i < m.dim → 0 ≤ j → j < m.dim → Canonical m.e i j →
+        k ≠ m.base + m.e.index i j m.offset) → m.assignExpr rhs d k = d k) :=
+  m.assignExpr_spec ha rhs hr hn d
+
+/-- the same, as one equation: the statement leaves the storage exactly as the alias-free assignment
+    (`C17_assign_raw`, `C17_assign_view`) from a snapshot of the storage taken before the statement -/
+theorem C17_self_assign_snapshot (m : SM) (ha : m.Adm) (rhs : AExpr) (hr : rhs.AllAdm) (hn : rhs.DimIs m.dim)
+    (d : Raw) (k : Int) : m.assignExpr rhs d k = m.assign (rhs.bind d) d k := by
+  obtain ⟨s1, s2⟩ := m.assignExpr_spec ha rhs hr hn d
+  obtain ⟨a1, a2⟩ := m.assign_raw ha (rhs.bind d) (rhs.bind_allAdm hr d) d
+  by_cases hk : ∃ i j : Int, 0 ≤ i ∧ i < m.dim ∧ 0 ≤ j ∧ j < m.dim ∧ Canonical m.e i j ∧
+      k = m.base + m.e.index i j m.offset
+  · obtain ⟨i, j, hi0, hi, hj0, hj, hc, rfl⟩ := hk
+    rw [s1 i j hi0 hi hj0 hj hc, a1 i j hi0 hi hj0 hj hc]
+  · have hmiss : ∀ i j : Int, 0 ≤ i → i < m.dim → 0 ≤ j → j < m.dim → Canonical m.e i j →
+        k ≠ m.base + m.e.index i j m.offset := fun i j hi0 hi hj0 hj hc heq => hk ⟨i, j, hi0, hi, hj0, hj, hc, heq⟩
+    rw [s2 k hmiss, a2 k hmiss]
+
 /-! Non-vacuity.  The hypotheses (`WF`, `SM.Adm`, `AllAdm`) are met by every matrix the library can create; in
 particular by the packed column-major diagonal matrix (offset 0) that finding F-27 was about, and the theorems
 compute the right thing on it: `Matrix(D.T())` for `DiagMatrix D(2)` holding 1, 2 is `{{1,0},{0,2}}`. -/
 example : (SM.packed (.BandEngine_ROW_MAJOR 0 0) 2).T.Adm := ⟨⟨by decide, by decide⟩, by decide, by decide⟩
 example : (SM.packed (.BandEngine_ROW_MAJOR 0 0) 2).T.e = .BandEngine_COL_MAJOR 0 0 := rfl
-example : (RExpr.sm (SM.packed (.BandEngine_ROW_MAJOR 0 0) 2).T (fun k => k + 1)).toDense 2 = [1, 0, 0, 2] := by decide
+example : (RExpr.sm (SM.packed (.BandEngine_ROW_MAJOR 0 0) 2).T ⟨fun k => k + 1⟩).toDense 2 = [1, 0, 0, 2] := by decide
 example : (SM.packed (.BandEngine_COL_MAJOR 3 1) 5).Adm := ⟨⟨by decide, by decide⟩, by decide, by decide⟩
 example : (SM.packed .SymmEngine_ROW_UPPER_COL_LOWER 4).Adm := ⟨trivial, by decide, by decide⟩
 example : ∃ x, (SM.packed .SymmEngine_ROW_LOWER_COL_UPPER 4).sub 1 2 = some x ∧ x.offset = 4 ∧ x.dim = 2 :=
@@ -203,5 +242,21 @@ example : InPattern (.BandEngine_ROW_MAJOR 3 1) 4 1 ∧ ¬ InPattern (.BandEngin
   simp only [InPattern]; omega
 example : ∃ v, (SM.packed (.BandEngine_ROW_MAJOR 1 1) 4).diag 1 = some v ∧ v.len = 3 := ⟨_, rfl, rfl⟩
 example : (SM.packed (.BandEngine_ROW_MAJOR 1 1) 4).diag 2 = none := rfl
+
+/-! Self-referential statements: `S.submatrix_on_diagonal(2,4) = 2.0*S.submatrix_on_diagonal(0,2)` for a 5x5
+`SquareMatrix` whose raw element k holds k+1.  Source block and target block share exactly the corner element
+S(2,2) (raw element 12): the source's `data_end` EQUALS the target's `data_begin`, `is_aliased` answers true, and
+the statement stores 2*13 = 26 in S(4,4).  The in-place path alone (what a test `ptr_end > mem1` would select) reads
+the already overwritten corner and stores 2*(2*1) = 4; for a block that does not touch the target the alias test
+answers false and the in-place path is taken. -/
+example : ∃ x y, (SM.packed .SquareEngine_ROW_MAJOR 5).sub 2 4 = some x ∧ (SM.packed .SquareEngine_ROW_MAJOR 5).sub 0 2 = some y ∧
+    x.Adm ∧ y.Adm ∧ y.dataEnd = x.dataBegin ∧ (AExpr.scale (.leaf y) 2).isAliased x.dataBegin x.dataEnd = true ∧
+    x.assignExpr (.scale (.leaf y) 2) ⟨fun k => k + 1⟩ 24 = 26 ∧
+    x.assignInPlace (.scale (.leaf y) 2) ⟨fun k => k + 1⟩ 24 = 4 :=
+  ⟨_, _, rfl, rfl, ⟨trivial, by decide, by decide⟩, ⟨trivial, by decide, by decide⟩, by decide, by decide, by decide,
+    by decide⟩
+example : ∃ x y, (SM.packed .SquareEngine_ROW_MAJOR 5).sub 3 4 = some x ∧ (SM.packed .SquareEngine_ROW_MAJOR 5).sub 0 1 = some y ∧
+    (AExpr.scale (.leaf y) 2).isAliased x.dataBegin x.dataEnd = false ∧ (AExpr.scale (.leaf y) 2).DimIs x.dim :=
+  ⟨_, _, rfl, rfl, by decide, rfl⟩
 
 end Adept.Special
